@@ -97,6 +97,14 @@ impl BlockDecoder {
                     return Err(FluteError::new("Raptor Scheme not found"));
                 }
 
+                // Maximum number of source symbols per block supported by Raptor (RFC 5053 K_max)
+                if nb_source_symbols > 8192 {
+                    return Err(FluteError::new(format!(
+                        "Raptor block of {} source symbols is not supported",
+                        nb_source_symbols
+                    )));
+                }
+
                 let codec = fec::raptor::RaptorDecoder::new(nb_source_symbols as usize, block_size);
                 self.decoder = Some(Box::new(codec));
             }
